@@ -284,6 +284,42 @@ reg("C20", p_thread.c20, {"R-THREAD": 8}, ["r_order"],
     decided="open descriptors are bounded by 2*(queue length + workers + 1) plus a constant, independent of the tree size.",
     not_decided="blocking_threadpool's blocking semantics (trusted); directory handles held by walkdir (bounded by its own default).")
 
+import p_copy
+
+reg("C01", p_copy.c01, {"R-SHORT": 9, "R-TABLE": 4, "R-ROLE": 20}, ["r_short", "r_role"],
+    rule="(a) CopyHandle::new: outfd comes from a truncating File::create, allocate_file(outfd, len) with len from the opened "
+         "source's metadata dominates every Ok(handle), CopyHandle is only built there; (b) R-SHORT over every call chain from "
+         "the drivers to copy_file_range/pread/pwrite/read/write: each partial count is accumulated in a completing loop, "
+         "compared-and-failed, or forwarded; (c) kernel copier, user-space copier and clone are reachable from both Copy arms; "
+         "roles of all data-moving sinks; block jobs use explicit offsets.",
+    technique="short-count dataflow (partial/total function summaries) + dominance of truncate-then-size + role inference",
+    decided="nothing of a previous destination survives (truncate + size from the source before any data call); no byte "
+            "count returned by the kernel is dropped on a success path; data moves from the source descriptor to the "
+            "destination descriptor at explicit offsets in block jobs.",
+    not_decided="the partition arithmetic of queue_file_range (block count, min, offsets covering [start,end) exactly), the "
+                "sparse walk's coverage, and byte equality itself: numeric/relational over run-time values.")
+
+reg("C02", p_copy.c02, {"R-ROLE": 20, "R-TABLE": 9, "R-ERR": 8, "R-SIB": 9}, ["r_role", "r_err"],
+    rule="R-ROLE: every filesystem-creating/mutating call in libxcp/libfs receives a DST-role path (dest or dest.join(rel)); "
+         "Operation::{Copy,Special}(SRC,DST), Link(read_link text, DST); R-TABLE FileType->action; R-ERR on every creation "
+         "call; R-SIB the two drivers agree per variant and main's target_base agrees with the walker's.",
+    technique="role inference + dispatch-table read-back + error discipline + sibling agreement",
+    decided="nothing is created from a source-side or mixed path; each kind is dispatched to the right creation; link text "
+            "is the read_link result; a failed creation cannot be followed by success; the mapping rule is computed "
+            "identically in validation and in the walk.",
+    not_decided="that the mapping rule equals cp's for all spellings, trailing slashes and glob expansions; that untouched "
+                "entries stay untouched beyond role confinement; link-text equality at run time.")
+
+reg("C05", p_copy.c05, {"R-SHORT": 9, "R-ERR": 60, "R-WHO": 2}, ["r_short", "r_err"],
+    rule="R-SHORT in the default build and in the build without the Linux backend; R-ERR on the same chains; every caller "
+         "of try_copy_file_range reaches a user-space copier for the None (ENOSYS/EPERM/EXDEV) answer.",
+    technique="short-count dataflow over two build configurations + error discipline + fallback reachability",
+    decided="a short count from copy_file_range/pread/pwrite/read/write is always retried to completion, checked against the "
+            "request, or surfaces as Err; an unsupported facility takes a fallback whose consumer reaches the user-space "
+            "copier or propagates.",
+    not_decided="byte placement by the kernel; the zero-progress case (a 0 return inside the requested range arises only "
+                "from concurrent truncation); which errnos fall back is not a condition of the property.")
+
 NOT_APPLICABLE = {
     "C19": "relation between returned integers and file bytes over kernel-supplied data (FIEMAP/SEEK_DATA) and all extent lists: "
            "arithmetic/relational reasoning over runtime values; any shape rule would freeze today's source fragment (DESIGN.md section 6)",
